@@ -127,6 +127,8 @@ class _State:
     tatsu_dir = None
     installed = False
     block = True
+    unblocked = ()  # prefixes of effect events that are recorded but not blocked (introspection inside a called method
+    #                 of the real code must not hide the effects that follow it); empty: every effect is blocked
 
 
 ST = _State()
@@ -211,7 +213,7 @@ def _hook(event, args):
             obs.ambient[k] = obs.ambient.get(k, 0) + 1
         elif inexpr and is_effect(event):
             obs.effects.append((event, _summary(args)))
-            if ST.block:
+            if ST.block and not event.startswith(ST.unblocked):
                 obs.blocked += 1
                 raise Blocked(event)
         elif inexpr:
